@@ -24,6 +24,14 @@ let do_hist (toks : string list) : string =
         | Some i -> Some (str_of_ascii (String.sub t 1 (i - 1)), zbytes_of_hex (String.sub t (i + 1) (String.length t - i - 1)))
         | None -> failwith "file"
       else None) toks in
+  let chain = List.concat_map (fun t ->
+      if t <> "" && t.[0] = 'C' then begin
+        let cn = int_of_string (String.sub t 1 (String.length t - 1)) in
+        List.init cn (fun j ->
+            let body = Printf.sprintf "<lv-1.0>\nbegin foo\nt%d\n" j ^ (if j + 1 < cn then Printf.sprintf "%%include c%d\n" (j + 1) else "") ^ Printf.sprintf "u%d\nend\n" j in
+            (str_of_ascii (Printf.sprintf "c%d" j), str_of_ascii body))
+      end else []) toks in
+  let files = files @ chain in
   let total = List.fold_left (fun a (_, d) -> a + List.length d) 0 files in
   let fuel = nat_of_int (4 * total + 100000) in
   let tmp_ok = not (List.mem "T" toks) in
@@ -41,7 +49,7 @@ let do_hist (toks : string list) : string =
          if t = "" then () else
            let a = String.sub t 1 (String.length t - 1) in
            match t.[0] with
-           | 'F' | 'T' -> ()
+           | 'F' | 'T' | 'C' -> ()
            | 'i' -> ignore (apply OInit); Buffer.add_string out "i "
            | 'f' ->
              ignore (apply OFree);
